@@ -24,22 +24,22 @@ ALL = ["C%02d" % i for i in range(1, 21)]
 
 
 TECHNIQUE = {
-    "C01": "MIR dataflow: panic-site inventory + interval abstract interpretation (incl. per-configuration range of the overflow indicator), canonical-value typestate, flag slices, call-graph family check",
-    "C02": "MIR dataflow: panic-site inventory + interval abstract interpretation (incl. range of the overflow indicator), canonical-value typestate, flag slices, call-graph family check",
-    "C03": "MIR dominance: non-zero guard predicates propagated over the call graph, must-call-before-return, reachability of todo!",
+    "C01": "MIR dataflow: panic-site inventory + interval abstract interpretation (incl. per-configuration range of the overflow indicator), canonical-value typestate, flag slices, call-graph family check, operand-order provenance of the operator impls",
+    "C02": "MIR dataflow: panic-site inventory + interval abstract interpretation (incl. range of the overflow indicator), canonical-value typestate, flag slices, call-graph family check, operator forwarding",
+    "C03": "MIR dominance: non-zero guard predicates propagated over the call graph, must-call-before-return, reachability of todo!, operand-order provenance of the / % operator impls",
     "C04": "call-graph reachability of the LIMBS assertion, canonical-value typestate over MIR, signature/impl-header lints, compile-fail witnesses",
-    "C05": "MIR dataflow: relational interval abstract interpretation of limb indices, flag backward slices, low-limb guard dominance",
-    "C06": "MIR dataflow: interval abstract interpretation, typestate rows with dominance side conditions, parametric panic condition of byte()",
+    "C05": "MIR dataflow: relational interval abstract interpretation of limb indices, flag backward slices, low-limb guard dominance, operator forwarding (direction and operand order)",
+    "C06": "MIR dataflow: interval abstract interpretation, typestate rows with dominance side conditions, parametric panic condition of byte(), realisable-extremes test on the return interval of the counting functions",
     "C07": "MIR dataflow: interval abstract interpretation of conversion bodies (cast-fit on success paths, callee-guard refutation), operand-kind lint on MASK, guard dominance, error-kind inventory",
-    "C08": "MIR dataflow: interval abstract interpretation with slice-length tracking (also of the overflow-checked MIR), guard dominance, typestate",
+    "C08": "MIR dataflow: interval abstract interpretation with slice-length tracking (also of the overflow-checked MIR), guard dominance, interval of the slice length where a result is built, typestate",
     "C09": "exact finite-partition abstract evaluation of the digit closure, constant tables from compiler-evaluated consts, MIR dataflow",
     "C10": "MIR dominance: zero-modulus edges, non-zero guard predicates over the call graph, typestate",
     "C13": "MIR dataflow: per-configuration literal-fit and return-discriminant summaries, precondition predicates checked at call sites",
-    "C16": "cross-checking sibling encoder/decoder implementations: byte-order class, registry set equality, interval-derived mode tables of writer and reader, const evaluation",
+    "C16": "cross-checking sibling encoder/decoder implementations: byte-order class, registry set equality, interval-derived mode tables of writer and reader, interval of hand-built RLP header bytes, const evaluation",
     "C17": "interprocedural panic-site inventory over MIR (release and overflow-checked) with interval abstract interpretation and guard dominance; must-pass-through checks",
     "C18": "MIR backward slices: rounding-free path to to_bits, count of inexact steps on the path to the float result, classification order by dominance",
     "C19": "compile-fail / compile-pass witness programs (proc-macro and const evaluation run inside rustc) + MIR rules on the macro crate",
-    "C20": "resolved-callee forwarding check: delegate identity against an oracle table, argument/result provenance slices, sibling direction check",
+    "C20": "resolved-callee forwarding check: delegate identity against an oracle table, argument/result provenance slices, sibling orientation / position check (necessary conditions)",
 }
 
 
